@@ -42,7 +42,7 @@ impl Vm {
         let mut lambda = Lambda::new_from_iof(vec![], vec![], &entry_lambda, &[], false);
         lambda.set_top_level();
         lambda.emit(OpCode::Enter);
-        self.compile(&mut lambda, true, expr)?;
+        self.compile_top_level(&mut lambda, expr)?;
         lambda.emit(OpCode::Ret);
         trace!("main: \n{}", self.decompile_text(&lambda));
         let lambda = self.heap.put(lambda);
@@ -54,6 +54,37 @@ impl Vm {
         entry_lambda.emit(OpCode::CallAcc);
         entry_lambda.emit(OpCode::Halt);
         Ok(entry_lambda)
+    }
+
+    /// Compile Top Level
+    ///
+    /// Compile a top level expression. A top level (begin form ...) is
+    /// spliced: its forms are compiled in sequence as top level forms, so
+    /// that definitions inside it are global definitions.
+    ///
+    /// # Arguments
+    /// `lambda` - The top level lambda to emit byte code to
+    /// `expr` - The expression to compile.
+    pub fn compile_top_level(&mut self, lambda: &mut Lambda, expr: &Cell) -> Result<(), Error> {
+        self.compile_top_level_form(lambda, true, expr)
+    }
+
+    fn compile_top_level_form(
+        &mut self,
+        lambda: &mut Lambda,
+        tail: bool,
+        expr: &Cell,
+    ) -> Result<(), Error> {
+        let is_begin = matches!(expr.car(), Some(Cell::Symbol(sym)) if sym == "begin");
+        if is_begin && expr.is_list() && expr.len() > 1 {
+            let forms = expr.cdr().unwrap().collect_vec();
+            for (idx, form) in forms.iter().enumerate() {
+                let last = idx == forms.len() - 1;
+                self.compile_top_level_form(lambda, tail && last, form)?;
+            }
+            return Ok(());
+        }
+        self.compile(lambda, tail, expr)
     }
 
     /// Compile
